@@ -15,10 +15,10 @@ From Isobar Require Import Base.Prelude Sched.Model.
 Local Open Scope Z_scope.
 
 (* the Coq type names, under names no Python local clashes with (a Python local may be called `track` or `action`) *)
-Definition track_t := track.
-Definition timeline_t := timeline.
-Definition action_t := action.
-Definition noteoff_t := noteoff.
+Notation track_t := track (only parsing).
+Notation timeline_t := timeline (only parsing).
+Notation action_t := action (only parsing).
+Notation noteoff_t := noteoff (only parsing).
 
 (** * list.remove(x): removes the first element that is == x *)
 Section RemoveFirst.
@@ -64,3 +64,36 @@ Proof.
   destruct s as [it p c]. unfold stream_is_none, empty_stream. cbn.
   split; [destruct it; [destruct p; [destruct c; [discriminate|reflexivity]|discriminate]|discriminate] | intros E; inversion E; reflexivity].
 Qed.
+
+(** * Track.tick() as an operation on the timeline that holds the track object   (the CALLBACK MECHANISM; trusted)
+   `track.tick()` in the loop of Timeline.tick mutates the Track object AND - through the callback of an action event, which
+   runs in the middle of Track.tick, inside perform_event - the timeline, possibly the very track that is ticking (mute,
+   update, unschedule ...).  The model splits Track.tick at that point (track_tick_a / the callback's operations /
+   track_tick_b on the object as the callback left it).  [obj_tick] is that composition and nothing else: it performs NO
+   part of Timeline.tick's own loop body (no removal, no exception handling), which is translated from the source.
+   Outcome: TickOk (tick() returned; a StopIteration was handled inside Track.tick), TickRaise (it raised an Exception),
+   TickFuel (model artefact: the `while` of Track.tick ran out of fuel).  The last component is the Track object after the
+   call, whether or not it is still scheduled (an object that left the timeline is otherwise not represented). *)
+Inductive tick_out := TickOk | TickRaise | TickFuel.
+
+Definition obj_tick (cfg : config) (tl : timeline) (tr : track) : timeline * list call * tick_out * track :=
+  let id := t_id tr in
+  let '(tr1, c, n', res) := track_tick_a cfg (now tl) tr (dev_calls tl) in
+  let tl1 := set_dev (upd_track tl tr1) n' in
+  let rest (tl : timeline) (stopped : bool) :=    (* `except StopIteration: ...` and the clock, on the object as it is now *)
+    match find_track id (tracks tl) with
+    | Some tr2 => let tr3 := track_tick_b cfg tr2 stopped in (upd_track tl tr3, tr3)
+    | None => (tl, track_tick_b cfg tr1 stopped)
+    end in
+  match res with
+  | TNotStarted => (tl1, c, TickOk, tr1)
+  | TNormal => let '(tl2, o) := rest tl1 false in (tl2, c, TickOk, o)
+  | TStop => let '(tl2, o) := rest tl1 true in (tl2, c, TickOk, o)
+  | TCallback cb =>
+      let '(rk, ops) := nth cb (cbs cfg) (CbNone, []) in
+      let tl2 := exec_cb_ops cfg tl1 ops in
+      let stop := match rk with CbStop => cb_completes cfg tl1 ops | _ => false end in
+      let '(tl3, o) := rest (if stop then end_stream tl2 id else tl2) stop in (tl3, c, TickOk, o)
+  | TRaise => (tl1, c, TickRaise, tr1)
+  | TOutOfFuel => (tl1, c, TickFuel, tr1)
+  end.
